@@ -688,8 +688,15 @@ func (vals *ValidatorSet) VerifyCommit(chainID string, blockID BlockID,
 		}
 
 		// The vals and commit have a 1-to-1 correspondance.
-		// This means we don't need the validator address or to do any lookup.
+		// This means we don't need to do any lookup. The address in the slot is not
+		// signed, but others look validators up by it (the block time is the median of
+		// the timestamps weighted by the power found under these addresses): it must
+		// be the address of the validator whose signature is in the slot.
 		val := vals.Validators[idx]
+		if !bytes.Equal(val.Address, commitSig.ValidatorAddress) {
+			return fmt.Errorf("wrong validator address (#%d): expected %X, got %X",
+				idx, val.Address, commitSig.ValidatorAddress)
+		}
 
 		// Validate signature.
 		voteSignBytes := commit.VoteSignBytes(chainID, int32(idx))
@@ -744,8 +751,13 @@ func (vals *ValidatorSet) VerifyCommitLight(chainID string, blockID BlockID,
 		}
 
 		// The vals and commit have a 1-to-1 correspondance.
-		// This means we don't need the validator address or to do any lookup.
+		// This means we don't need to do any lookup; the address in the slot must be
+		// that validator's (see VerifyCommit).
 		val := vals.Validators[idx]
+		if !bytes.Equal(val.Address, commitSig.ValidatorAddress) {
+			return fmt.Errorf("wrong validator address (#%d): expected %X, got %X",
+				idx, val.Address, commitSig.ValidatorAddress)
+		}
 
 		// Validate signature.
 		voteSignBytes := commit.VoteSignBytes(chainID, int32(idx))
